@@ -125,6 +125,38 @@ pub fn check(cx: &Cx, rep: &mut Report) {
             }
         }
     }
+    // R6: a stream-attached actor is never idle while its stream has an item ready: at a quiescent point (nothing
+    // runnable) the harness stream reports how many items it could hand out at once
+    let mut sid_task: std::collections::HashMap<u64, u32> = Default::default();
+    for e in ix.ev {
+        if let K::StreamYield { sid, .. } = &e.k {
+            sid_task.entry(*sid).or_insert(e.task);
+        }
+    }
+    for (stamp, note) in &ix.notes {
+        let Some(rest) = note.strip_prefix("ready_stream sid=") else { continue };
+        let Some(sid) = rest.split(' ').next().and_then(|s| s.parse::<u64>().ok()) else { continue };
+        let Some(task) = sid_task.get(&sid) else { continue };
+        let Some(a) = ix.actors.get(task) else { continue };
+        if a.end.map(|e| e.0 < *stamp).unwrap_or(false) {
+            continue;
+        }
+        rep.premise("C13.R6.never_idle_with_ready_stream");
+        let busy = a.timeline.iter().any(|t| match t {
+            crate::index::TL::Inv(j) => {
+                let inv = &ix.invs[*j];
+                inv.i < *stamp && inv.out.map(|o| o.0 > *stamp).unwrap_or(inv.abandoned.map(|x| x.0 > *stamp).unwrap_or(true))
+            }
+            crate::index::TL::Cb(j) => {
+                let cb = &ix.cbs[*j];
+                cb.i < *stamp && cb.o.map(|o| o.0 > *stamp).unwrap_or(true)
+            }
+        });
+        if !busy {
+            rep.fail(P, "R6", "idle_with_ready_stream", format!("stream actor task {task} is idle at the quiescent point #{stamp} although its stream has items ready ({note})"), vec![*stamp]);
+            break;
+        }
+    }
     super::submission_starvation("C13", cx, rep);
     rep.nontrivial = nontrivial;
 }
